@@ -10,8 +10,8 @@
    The `sh_*` predicates (Proof/C38_shapes.v) spell out "follows the layout". *)
 From Coq Require Import List NArith Bool.
 From K.Gen Require Import C38_consts.
-From K.Model Require Import C38.
-From K.Proof Require C38 C38_shapes C38_engine C38_segs C38_repo.
+From K.Model Require Import C38 C38_layout.
+From K.Proof Require C38 C38_shapes C38_engine C38_segs C38_repo C38_layout.
 Import ListNotations.
 Import K.Proof.C38_shapes K.Proof.C38_engine K.Proof.C38.
 
@@ -107,9 +107,15 @@ Theorem C38_rejects_algo_offset : forall p a o, get_upload_algo_offset p = Some 
 Proof. exact Proof.C38.algo_rejects. Qed.
 Print Assumptions C38_rejects_algo_offset.
 
-(* executable form used on observed cases *)
-Theorem C38_check_sound : forall path built, C38_check path built (observe path) = true.
-Proof. exact Proof.C38.check_sound. Qed.
+(* clause 3 in executable form (Model/C38_layout.v: recognisers written without the matcher):
+   every answer of the eight functions, on any path whatsoever, is consistent with the layout *)
+Theorem C38_accepted_follow_layout : forall p, obs_follows_layout p (observe p) = true.
+Proof. exact Proof.C38_layout.observe_follows_layout. Qed.
+Print Assumptions C38_accepted_follow_layout.
+
+(* executable form of the whole property, used on observed cases *)
+Theorem C38_check_sound : forall path built, C38_check2 path built (observe path) = true.
+Proof. exact Proof.C38_layout.check2_sound. Qed.
 Print Assumptions C38_check_sound.
 
 (* the pattern as shipped before fixes/C38_getrepo_lazy.patch (greedy quantifiers) returns a wrong
